@@ -394,7 +394,8 @@ class Ctx:
             if v.ty == INT or v.ty == REAL:
                 return v.t != 0
             if v.ty.name == "Ref":
-                return True
+                hook = getattr(self.engine, "truth_of_object", None)
+                return hook(self, v) if hook else True
             if v.ty.name == "Opt":
                 s = sort_of(v.ty)
                 inner = self.truth(self.wrap(s.val(v.t), v.ty.args[0]))
@@ -404,6 +405,8 @@ class Ctx:
             if v.ty.name == "List":
                 return sort_of(v.ty).len(v.t) > 0
         if isinstance(v, Cell):
+            if getattr(v, "unknown", False):
+                raise Unsupported("truthiness of a container of unknown content")
             if v.sym is None:
                 return len(v.conc) > 0
             if v.kind == "list":
